@@ -154,10 +154,23 @@ class CGenerator:
         rval_str = self._parenthesize_if(
             n.rvalue, lambda n: isinstance(n, c_ast.Assignment)
         )
-        return f"{self.visit(n.lvalue)} {n.op} {rval_str}"
+        # The parser accepts any conditional-expression on the left; an
+        # assignment or a comma expression there needs its parentheses back.
+        lval_str = self._parenthesize_if(
+            n.lvalue, lambda n: isinstance(n, c_ast.Assignment)
+        )
+        return f"{lval_str} {n.op} {rval_str}"
 
     def visit_IdentifierType(self, n: c_ast.IdentifierType) -> str:
         return " ".join(n.names)
+
+    def _visit_constant_expr(self, n: c_ast.Node) -> str:
+        """Visits an expression in a place where the grammar expects a
+        conditional-expression (bit-field widths, enumerator values, case
+        labels, designators, _Static_assert, _Alignas): assignments and comma
+        expressions must keep their parentheses there.
+        """
+        return self._parenthesize_if(n, lambda d: isinstance(d, c_ast.Assignment))
 
     def _visit_expr(self, n: c_ast.Node) -> str:
         match n:
@@ -174,7 +187,7 @@ class CGenerator:
         #
         s = n.name if no_type else self._generate_decl(n)
         if n.bitsize:
-            s += " : " + self.visit(n.bitsize)
+            s += " : " + self._visit_constant_expr(n.bitsize)
         if n.init:
             s += " = " + self._visit_expr(n.init)
         return s
@@ -214,7 +227,7 @@ class CGenerator:
         return self._generate_struct_union_enum(n, name="enum")
 
     def visit_Alignas(self, n: c_ast.Alignas) -> str:
-        return "_Alignas({})".format(self.visit(n.alignment))
+        return "_Alignas({})".format(self._visit_constant_expr(n.alignment))
 
     def visit_Enumerator(self, n: c_ast.Enumerator) -> str:
         if not n.value:
@@ -226,7 +239,7 @@ class CGenerator:
             return "{indent}{name} = {value},\n".format(
                 indent=self._make_indent(),
                 name=n.name,
-                value=self.visit(n.value),
+                value=self._visit_constant_expr(n.value),
             )
 
     def visit_FuncDef(self, n: c_ast.FuncDef) -> str:
@@ -331,7 +344,7 @@ class CGenerator:
 
     def visit_StaticAssert(self, n: c_ast.StaticAssert) -> str:
         s = "_Static_assert("
-        s += self.visit(n.cond)
+        s += self._visit_constant_expr(n.cond)
         if n.message:
             s += ","
             s += self.visit(n.message)
@@ -344,7 +357,7 @@ class CGenerator:
         return s
 
     def visit_Case(self, n: c_ast.Case) -> str:
-        s = "case " + self.visit(n.expr) + ":\n"
+        s = "case " + self._visit_constant_expr(n.expr) + ":\n"
         for stmt in n.stmts:
             s += self._generate_stmt(stmt, add_indent=True)
         return s
@@ -379,7 +392,7 @@ class CGenerator:
             if isinstance(name, c_ast.ID):
                 s += "." + name.name
             else:
-                s += "[" + self.visit(name) + "]"
+                s += "[" + self._visit_constant_expr(name) + "]"
         s += " = " + self._visit_expr(n.expr)
         return s
 
@@ -517,7 +530,7 @@ class CGenerator:
                             if modifier.dim_quals:
                                 nstr += " ".join(modifier.dim_quals) + " "
                             if modifier.dim is not None:
-                                nstr += self.visit(modifier.dim)
+                                nstr += self._visit_expr(modifier.dim)
                             nstr += "]"
                         case c_ast.FuncDecl():
                             if i != 0 and isinstance(modifiers[i - 1], c_ast.PtrDecl):
